@@ -137,6 +137,8 @@ def impl(case):
         app2 = Application([Route(case['pattern'], ns['ep2'])], slash_mode='rewrite' if case['mode'] == 'redirect' else case['mode'])
         reqs = {}
         for i in case['request_sample']:
+            if i >= len(paths_of(case)):
+                continue                       # a shrunk replay case keeps the sample indices of the case it came from
             p = paths_of(case)[i]
             if not p.startswith('/') or p.startswith('//') or '?' in p or '#' in p:
                 continue                       # werkzeug collapses a leading slash run (O17)
